@@ -11,6 +11,9 @@ graphs ("layers") are explored:
   TP  a TreeList facing a persistent pool of three trees over ONE shared foreign namespace S
       (restricted alphabet: every import API x strategy, every way of changing the list's own
       namespace, then imports of the trees that still live in S)
+  MM  TreeLists, a Tree and a matrix over ONE shared source namespace, migrated one after the other
+      into one target namespace with taxon_mapping_memo not passed / None / one shared empty dict /
+      one shared pre-seeded dict x unify_taxa_by_label x case rules, through every API that takes it
   DP  a DataSet holding a TreeList, same pool plus two matrices over S (imports into the component
       list, add of the pool matrices, unify / attach / member-level migration)
 
@@ -95,9 +98,9 @@ MANIFEST = {
 
 def bounds(tier):
     if tier == "quick":
-        return {"depth": {"TL": 3, "DS": 3, "CM": 3, "TA": 3, "TP": 3, "DP": 3}, "max_trees": 3, "max_components": 3,
+        return {"depth": {"TL": 3, "DS": 3, "CM": 3, "TA": 3, "TP": 3, "DP": 3, "MM": 3}, "max_trees": 3, "max_components": 3,
                 "tree_specs": ["ab", "Ac", "cdz", "aA", "aa", "bce"], "chunk": 6}
-    return {"depth": {"TL": 4, "DS": 4, "CM": 4, "TA": 4, "TP": 4, "DP": 4}, "max_trees": 3, "max_components": 3,
+    return {"depth": {"TL": 4, "DS": 4, "CM": 4, "TA": 4, "TP": 4, "DP": 4, "MM": 4}, "max_trees": 3, "max_components": 3,
             "tree_specs": ["ab", "Ac", "cdz", "aA", "aa", "bce"], "chunk": 6}
 
 
@@ -1219,6 +1222,9 @@ def ds_enabled(w, b):
             ops.append(("read", d, "fresh"))
             if attached:
                 ops.append(("read", d, "attached"))
+        if d == "d_chars_Ac" and n + 1 <= cap:
+            ops.append(("read", d, "exclude_trees"))
+            ops.append(("read", d, "exclude_chars"))
     if n + 1 <= cap:
         for ls in ("L_ab", "L_Ac_cd", "L_aA"):
             ops.append(("add_tl", ls))
@@ -1236,7 +1242,7 @@ def ds_enabled(w, b):
         ops.append(("attach", "last"))
     if attached:
         ops.append(("detach",))
-    for v in ("default", "given_cs", "given_ci_noattach", "first", "default_noattach"):
+    for v in ("default", "given_cs", "given_ci_noattach", "first", "default_noattach", "case_insensitive"):
         if v == "first" and not len(ds.taxon_namespaces):
             continue
         ops.append(("unify", v))
@@ -1261,6 +1267,8 @@ def ds_enabled(w, b):
 def ds_site(op):
     k = op[0]
     if k == "read":
+        if op[2] in ("exclude_trees", "exclude_chars"):
+            return "DataSet.read(%s,%s=True)" % (DS_DOCS[op[1]][0], op[2])
         return "DataSet.read(%s%s)" % (DS_DOCS[op[1]][0], "" if op[2] is None else ",taxon_namespace=" + ("attached" if op[2] == "attached" else "other"))
     if k == "add_tl":
         return "DataSet.add(TreeList)"
@@ -1336,6 +1344,12 @@ def ds_apply(w, op, R):
             kw["taxon_namespace"] = att0
         elif att0 is not None:
             T = att0
+        if op[2] in ("exclude_trees", "exclude_chars"):
+            kw[op[2]] = True
+            if op[2] == "exclude_trees":
+                doc_tls = []
+            else:
+                doc_cms = []
         if T is not None and T.is_case_sensitive:
             kw["case_sensitive_taxon_labels"] = True
         exc = call(lambda: ds.read(data=text, schema=schema, **kw))
@@ -1446,6 +1460,8 @@ def ds_apply(w, op, R):
             kw["taxon_namespace"] = T
         elif v == "default_noattach":
             kw["attach_taxon_namespace"] = False
+        elif v == "case_insensitive":
+            kw["case_sensitive_label_mapping"] = False
         t_cs = T.is_case_sensitive if T is not None else False
         t_mem = members(T) if T is not None else []
         want_attach = kw.get("attach_taxon_namespace", True)
@@ -1739,7 +1755,7 @@ def _free_member(m):
     return None
 
 
-MERGERS = ("add_sequences", "replace_sequences", "update_sequences", "extend_sequences", "extend_matrix")
+MERGERS = ("add_sequences", "replace_sequences", "update_sequences", "extend_sequences", "extend_sequences+new", "extend_matrix")
 
 
 def cm_enabled(w, b):
@@ -1764,7 +1780,7 @@ def cm_enabled(w, b):
     ops.append(("setitem", "taxon_foreign"))
     ops.append(("getitem", "taxon_foreign"))
     if nmem < 6:
-        for kind in ("label_new", "label_case", "taxon_foreign"):
+        for kind in ("label_new", "label_case", "label_case_cs", "taxon_foreign"):
             ops.append(("from_dict", kind))
         ops.append(("from_dict", "pool_taxon_0"))     # keyed by a Taxon object of the shared foreign namespace S
         ops.append(("from_dict", "pool_taxon_1"))
@@ -1804,7 +1820,7 @@ def cm_site(op):
             return "CharacterMatrix.from_dict(taxon-of-shared-foreign-namespace)"
         return "CharacterMatrix.from_dict(%s)" % op[1].replace("_", "-")
     if k == "other":
-        return "CharacterMatrix.%s(%s)" % (op[1], "same-namespace" if op[2] == "same" else "other-namespace")
+        return "CharacterMatrix.%s(%s)" % (op[1].replace("+new", "(is_add_new_sequences=True)"), "same-namespace" if op[2] == "same" else "other-namespace")
     if k == "fill_taxa":
         return "CharacterMatrix.fill_taxa"
     if k == "migrate":
@@ -1914,11 +1930,16 @@ def cm_apply(w, op, R):
             d = {"d": content}
         elif op[1] == "label_case":
             d = {"A": content}
+        elif op[1] == "label_case_cs":
+            d = {"A": content}
         elif op[1].startswith("pool_taxon_"):
             d = {w.S._taxa[int(op[1][-1])]: content}
         else:
             d = {Taxon(label="a"): content}
-        exc = call(lambda: DnaCharacterMatrix.from_dict(d, char_matrix=m))
+        if op[1] == "label_case_cs":
+            exc = call(lambda: DnaCharacterMatrix.from_dict(d, char_matrix=m, case_sensitive_taxon_labels=True))
+        else:
+            exc = call(lambda: DnaCharacterMatrix.from_dict(d, char_matrix=m))
         if unexpected(site, exc, R):
             return
         if m._taxon_namespace is not ns:
@@ -1929,7 +1950,7 @@ def cm_apply(w, op, R):
         if any(not any(x is y for y in cur) for x in keys0) or len(cur) > len(keys0) + 1:
             R.add("%s|wrong-sequence-keys" % site, "sequences are keyed by %s after adding one entry to %s" % (
                 [x._label for x in cur], [x._label for x in keys0]))
-        ns_conserved(ns, pre_mem, op[1] == "taxon_foreign" or op[1].startswith("pool_taxon_"), site, R)
+        ns_conserved(ns, pre_mem, op[1] in ("taxon_foreign", "label_case_cs") or op[1].startswith("pool_taxon_"), site, R)
         if op[1].startswith("pool_taxon_") and not any(w.S._taxa[int(op[1][-1])] is x for x in cur):
             R.add("%s|wrong-sequence-keys" % site, "the Taxon object given as key does not key a sequence afterwards")
     elif k == "other":
@@ -1943,10 +1964,13 @@ def cm_apply(w, op, R):
         for x in other._taxon_namespace._taxa:
             other._taxon_sequence_map[x] = other.character_sequence_type(w.next_seq())
         okeys = list(other._taxon_sequence_map)
-        exc = call(lambda: getattr(m, meth)(other))
+        if meth == "extend_sequences+new":
+            exc = call(lambda: m.extend_sequences(other, is_add_new_sequences=True))
+        else:
+            exc = call(lambda: getattr(m, meth)(other))
         if unexpected(site, exc, R, expected):
             return
-        if exc is None and meth in ("add_sequences", "update_sequences", "extend_matrix"):
+        if exc is None and meth in ("add_sequences", "update_sequences", "extend_matrix", "extend_sequences+new"):
             exp = keys0 + [x for x in okeys if not any(x is y for y in keys0)]
         else:
             exp = keys0
@@ -2201,7 +2225,7 @@ def ta_enabled(w, b):
     ops = []
     if n + 1 <= cap:
         for sh in sorted(TA_SHAPES):
-            for how in ("add_tree", "append", "insert0"):
+            for how in ("add_tree", "append", "insert0", "add_tree_updated"):
                 ops.append(("add", sh, how))
         for d in sorted(TA_DOCS):
             ops.append(("read", d))
@@ -2223,7 +2247,7 @@ def ta_enabled(w, b):
 def ta_site(op):
     k = op[0]
     if k == "add":
-        return "TreeArray.%s" % {"add_tree": "add_tree", "append": "append", "insert0": "insert"}[op[2]]
+        return "TreeArray.%s" % {"add_tree": "add_tree", "append": "append", "insert0": "insert", "add_tree_updated": "add_tree(is_bipartitions_updated=True)"}[op[2]]
     if k == "add_foreign":
         return "TreeArray.%s(tree of another namespace)" % {"add_tree": "add_tree", "append": "append", "insert0": "insert"}[op[2]]
     if k == "add_trees":
@@ -2298,6 +2322,10 @@ def ta_apply(w, op, R):
         wc = _shape_clades(TA_SHAPES[op[1]], TA_LABELS)
         if op[2] == "add_tree":
             exc = call(lambda: ta.add_tree(t))
+            w.want.append(wc)
+        elif op[2] == "add_tree_updated":
+            t.encode_bipartitions()
+            exc = call(lambda: ta.add_tree(t, is_bipartitions_updated=True))
             w.want.append(wc)
         elif op[2] == "append":
             exc = call(lambda: ta.append(t))
@@ -2558,6 +2586,253 @@ def dp_enabled(w, b):
     return ops
 
 
+# ---------------------------------------------------------------------------
+# layer MM: several containers over ONE shared source namespace are migrated one after the other
+# into one target namespace, with the taxon_mapping_memo argument in every mode.
+#
+# Documented meaning demanded (TaxonNamespaceAssociated.migrate_taxon_namespace): the memo "maps Taxon
+# objects in the old namespace to corresponding Taxon objects in the new namespace", is "similar to
+# memo of deepcopy" (i.e. entries made by one call are seen by the next call that gets the same dict),
+# and "any mappings here take precedence over all other options ... regardless of, e.g. label values".
+
+MM_SOURCES = {"s_ci": (False, ("a", "b", "c")), "s_cs": (True, ("a", "A", "b"))}
+# name: (class, content)   trees = (leaf picks, root pick); matrix = picks carrying a sequence
+MM_CONTAINERS = {
+    "L1": ("TreeList", (((0, 1), None), ((0, 2), None))),
+    "L2": ("TreeList", (((1, 2), 0),)),
+    "M1": ("CharacterMatrix", (0, 2)),
+    "T1": ("Tree", ((0, 2), 1)),
+}
+MM_MEMO_MODES = ("not-passed", "None", "shared-empty", "shared-preseeded")
+MM_APIS = ("migrate", "assign_reconstruct", "append", "insert")     # the last two: target_list.append/insert(tree, **kwargs)
+ORD = ("first", "second", "later", "later")
+
+
+class MMWorld(object):
+    layer = "MM"
+
+    def __init__(self, start):
+        _k, src, tgt, mode = start
+        cs, labels = MM_SOURCES[src]
+        self.S = build_ns(cs, labels)
+        self.N = target_ns(tgt)
+        self.mode = mode
+        self.cont = {}
+        for name, (cls, content) in MM_CONTAINERS.items():
+            if cls == "TreeList":
+                c = TreeList(taxon_namespace=self.S)
+                for picks, root in content:
+                    c._trees.append(build_tree(self.S, picks, root))
+            elif cls == "Tree":
+                c = build_tree(self.S, content[0], content[1])
+            else:
+                c = DnaCharacterMatrix(taxon_namespace=self.S)
+                for i, pk in enumerate(content):
+                    c._taxon_sequence_map[self.S._taxa[pk]] = c.character_sequence_type(SEQ_POOL[i])
+            self.cont[name] = c
+        self.done = []                 # names in the order they were migrated
+        self.host = TreeList(taxon_namespace=self.N)     # receives Tree containers through append / insert
+        self.memo = None
+        self.seeded = {}               # id(old) -> seeded new taxon
+        if mode in ("shared-empty", "shared-preseeded"):
+            self.memo = {}
+        if mode == "shared-preseeded":
+            q = Taxon(label="q")       # a label unrelated to the old taxon's: the mapping must win regardless of labels
+            self.memo[self.S._taxa[0]] = q
+            self.seeded[id(self.S._taxa[0])] = q
+        self.model = dict(self.seeded)  # harness's own old -> new map for the shared memo
+
+    def size(self):
+        return len(self.done)
+
+    def kwargs(self, unify):
+        kw = {}
+        if not unify:
+            kw["unify_taxa_by_label"] = False
+        if self.mode == "None":
+            kw["taxon_mapping_memo"] = None
+        elif self.memo is not None:
+            kw["taxon_mapping_memo"] = self.memo
+        return kw
+
+
+def mm_starts(b):
+    return [("mm", s, t, m) for s in sorted(MM_SOURCES) for t in ("ci", "cs", "pre") for m in MM_MEMO_MODES]
+
+
+def _mm_items(c):
+    """[(taxon, label, alignment key)] of a container"""
+    if isinstance(c, TreeList):
+        out = []
+        for i, t in enumerate(c._trees):
+            out.extend((tx, tx._label, ("n", i, j)) for j, tx in enumerate(taxa_of(t)) if tx is not None)
+        return out
+    if isinstance(c, Tree):
+        return [(tx, tx._label, ("n", 0, j)) for j, tx in enumerate(taxa_of(c)) if tx is not None]
+    return [(tx, tx._label, ("s", id(s))) for tx, s in c._taxon_sequence_map.items()]
+
+
+def mm_key(w):
+    nidx = {id(x): i for i, x in enumerate(w.N._taxa)}
+    sidx = {id(x): i for i, x in enumerate(w.S._taxa)}
+
+    def ref(tx):
+        if id(tx) in nidx:
+            return ("N", nidx[id(tx)])
+        if id(tx) in sidx:
+            return ("S", sidx[id(tx)])
+        return ("x", tx._label)
+    conts = []
+    for name in sorted(w.cont):
+        c = w.cont[name]
+        bound = "N" if c._taxon_namespace is w.N else ("S" if c._taxon_namespace is w.S else "other")
+        conts.append((name, bound, tuple(sorted(ref(tx) for tx, _l, _k in _mm_items(c))) if isinstance(c, DnaCharacterMatrix)
+                      else tuple(ref(tx) for tx, _l, _k in _mm_items(c))))
+    memo = None
+    if w.memo is not None:
+        memo = tuple(sorted((sidx.get(id(o), -1), ref(n)) for o, n in w.memo.items()))
+    return ("MM", w.mode, bool(w.S.is_case_sensitive), bool(w.N.is_case_sensitive), tuple(x._label for x in w.N._taxa),
+            tuple(conts), memo, tuple(w.done), tuple(id(t) is not None and nidx.get(id(tx), -1) for t in w.host._trees for tx in taxa_of(t) if tx is not None))
+
+
+def mm_enabled(w, b):
+    ops = []
+    for name in sorted(w.cont):
+        if name in w.done:
+            continue
+        cls = MM_CONTAINERS[name][0]
+        for api in MM_APIS:
+            if api in ("append", "insert") and cls != "Tree":
+                continue
+            for u in (1, 0):
+                ops.append(("mm", name, api, u))
+    return ops
+
+
+def mm_site(op):
+    _k, name, api, u = op
+    cls = MM_CONTAINERS[name][0]
+    if api == "migrate":
+        return "%s.migrate_taxon_namespace" % cls
+    if api == "assign_reconstruct":
+        return "%s.taxon_namespace=;reconstruct_taxon_namespace" % cls
+    return "TreeList.%s(tree,**migrate_kwargs)" % api
+
+
+def mm_apply(w, op, R):
+    op = tup(op)
+    _k, name, api, u = op
+    unify = bool(u)
+    c = w.cont[name]
+    N = w.N
+    site = "%s(memo=%s,unify=%s)|%s-container" % (mm_site(op), w.mode, unify, ORD[min(len(w.done), 3)])
+    kw = w.kwargs(unify)
+    pre = _mm_items(c)
+    n_mem = members(N)
+    n_ids = set(id(o) for o, _l in n_mem)
+    expected = ()
+    if isinstance(c, DnaCharacterMatrix) and unify:
+        # two sequences that would land on one taxon: documented refusal
+        tgt_labels = []
+        for tx, l, _key in pre:
+            tgt_labels.append(w.model[id(tx)]._label if (w.memo is not None and id(tx) in w.model) else l)
+        if any(leq(tgt_labels[i], tgt_labels[j], N.is_case_sensitive) for i in range(len(pre)) for j in range(i + 1, len(pre))):
+            expected = (dperror.TaxonNamespaceReconstructionError,)
+    if api == "migrate":
+        exc = call(lambda: c.migrate_taxon_namespace(N, **kw))
+    elif api == "assign_reconstruct":
+        def f():
+            c.taxon_namespace = N
+            c.reconstruct_taxon_namespace(**kw)
+        exc = call(f)
+    elif api == "append":
+        exc = call(lambda: w.host.append(c, **kw))
+    else:
+        exc = call(lambda: w.host.insert(0, c, **kw))
+    root = "CharacterMatrix.reconstruct_taxon_namespace(unify_taxa_by_label=True)" if expected else site
+    if unexpected(root, exc, R, expected):
+        return
+    R.items[:] = [it for it in R.items if "missing-refusal" not in it[0]]
+    w.done.append(name)
+    if exc is not None:
+        R2 = Rec()
+        closure_matrix(c, site, R2)
+        if R2.items:
+            R.add("%s|closure-broken-after-refusal" % root,
+                  "TaxonNamespaceReconstructionError was raised half-way and left the matrix outside its namespace: %s (entered through %s)" % (R2.items[0][1], site))
+        return
+    # -- closure
+    if c._taxon_namespace is not N:
+        R.add("%s|container-not-bound-to-target" % site, "the container is not bound to the target namespace object")
+        return
+    if isinstance(c, TreeList):
+        closure_treelist(c, site, R)
+    elif isinstance(c, Tree):
+        closure_tree(c, N, site, "tree", R)
+    else:
+        closure_matrix(c, site, R)
+    if R.fatal:
+        return
+    post = dict((key, tx) for tx, _l, key in _mm_items(c))
+    if len(post) != len(pre) or any(key not in post for _tx, _l, key in pre):
+        R.add("%s|taxon-assignment-lost" % site, "the container had %d taxon references and has %d" % (len(pre), len(post)))
+        return
+    # -- the memo: entries take precedence; entries made by earlier calls are seen by this one
+    rest_pre, rest_post = [], []
+    shared = w.memo is not None
+    for tx, l, key in pre:
+        b = post[key]
+        if shared and id(tx) in w.model:
+            want = w.model[id(tx)]
+            if b is not want:
+                if id(tx) in w.seeded:
+                    R.add("%s|memo-entry-ignored" % site,
+                          "taxon_mapping_memo maps the old taxon %r to a given taxon (%r), the item was put on another one (%r)" % (l, want._label, b._label))
+                else:
+                    R.add("%s|old-taxon-mapped-to-several-new-taxa" % site,
+                          "one taxon_mapping_memo dict was passed to every call, yet the old taxon %r, mapped to one new taxon by an "
+                          "earlier call, was mapped to another new taxon now (target namespace: %s)" % (l, [x._label for x in N._taxa]))
+                return
+        else:
+            rest_pre.append((tx, l))
+            rest_post.append(b)
+    relate(rest_pre, rest_post, "unify" if unify else "nounify", N.is_case_sensitive, n_ids, [l for _o, l in n_mem], site, R)
+    if R.fatal:
+        return
+    ns_conserved(N, n_mem, (not unify) or bool(w.seeded), site, R)
+    if shared:
+        for (tx, l), b in zip(rest_pre, rest_post):
+            w.model.setdefault(id(tx), b)
+            got = w.memo.get(tx)
+            if got is not b:
+                R.add("%s|memo-not-filled" % site,
+                      "after the call the dict passed as taxon_mapping_memo %s for the old taxon %r that the call mapped to a new taxon" % (
+                          "has no entry" if got is None else "has another entry", l), fatal=False)
+                break
+    # -- containers migrated earlier are untouched; every one still closed
+    for other in w.done[:-1]:
+        oc = w.cont[other]
+        R2 = Rec()
+        if isinstance(oc, TreeList):
+            closure_treelist(oc, site, R2)
+        elif isinstance(oc, Tree):
+            closure_tree(oc, N, site, "tree", R2)
+        else:
+            closure_matrix(oc, site, R2)
+        if R2.items:
+            R.add("%s|earlier-container-broken" % site, R2.items[0][1])
+    # -- one old taxon -> one new taxon across all containers when one memo was shared
+    if shared:
+        seen_map = {}
+        for nm in w.done:
+            pass
+        # (the per-item comparison against the harness's model above decides; this is the summary check)
+        for tx_id, new in w.model.items():
+            seen_map.setdefault(tx_id, set()).add(id(new))
+        if any(len(v) > 1 for v in seen_map.values()):
+            R.add("%s|old-taxon-mapped-to-several-new-taxa" % site, "model inconsistency")
+
+
 # ===========================================================================
 # LAYER-REGISTRY-BELOW (other layers are defined above this line)
 
@@ -2567,6 +2842,7 @@ LAYERS = {
     "CM": {"world": CMWorld, "starts": cm_starts, "enabled": cm_enabled, "apply": cm_apply, "key": cm_key, "site": cm_site},
     "DS": {"world": DSWorld, "starts": ds_starts, "enabled": ds_enabled, "apply": ds_apply, "key": ds_key, "site": ds_site},
     "TP": {"world": TPWorld, "starts": tp_starts, "enabled": tp_enabled, "apply": tl_apply, "key": tp_key, "site": tl_site},
+    "MM": {"world": MMWorld, "starts": mm_starts, "enabled": mm_enabled, "apply": mm_apply, "key": mm_key, "site": mm_site},
     "DP": {"world": DPWorld, "starts": dp_starts, "enabled": dp_enabled, "apply": ds_apply, "key": dp_key, "site": ds_site},
 }
 
@@ -2659,6 +2935,10 @@ def describe(layer, start):
     if layer == "TP":
         return "TreeList over %s namespace %s; pool: trees P0=(a,b) P1=(a,c) P2=(b,c) over ONE foreign namespace S=[a,b,c]" % (
             "case-sensitive" if start[1] else "case-insensitive", "with one tree (a,b)" if start[2] else "(empty)")
+    if layer == "MM":
+        return ("containers L1=TreeList[(a,b),(a,c)] L2=TreeList[(b,c) root a] M1=matrix(a,c) T1=Tree((a,c) root b) [picks into the source labels] "
+                "over ONE source namespace %s %s, target namespace %r, taxon_mapping_memo %s" % (
+                    MM_SOURCES[start[1]][1], "case-sensitive" if MM_SOURCES[start[1]][0] else "case-insensitive", start[2], start[3]))
     if layer == "DP":
         return "DataSet (%s) holding one empty TreeList; pool: trees P0=(a,b) P1=(a,c) P2=(b,c) and matrices Q0(a,b) Q1(a,c) over ONE foreign namespace S=[a,b,c]" % start[1]
     return "%s start %r" % (layer, start)
